@@ -185,6 +185,54 @@ class Driver:
         return [x for c in res for x in c]
 
 
+class Jv:
+    """Line protocol client for the in-process Rust harness `jv` (batch mode).
+
+    A request that kills the process (stack overflow, abort) is answered with {"abort": rc, ...} and the
+    remaining requests are sent to a fresh process."""
+
+    def __init__(self, timeout=120):
+        if not os.path.exists(JV):
+            raise BuildError("harness jv not built: " + JV)
+        self.timeout = timeout
+
+    def batch(self, requests):
+        out = []
+        pending = list(requests)
+        while pending:
+            data = "\n".join(json.dumps(r, ensure_ascii=False) for r in pending) + "\n"
+            try:
+                p = subprocess.run([JV], input=data.encode("utf-8"), stdout=subprocess.PIPE, stderr=subprocess.PIPE,
+                                   timeout=self.timeout)
+                rc, stdout, stderr = p.returncode, p.stdout, p.stderr
+            except subprocess.TimeoutExpired as ex:
+                rc, stdout, stderr = "timeout", ex.stdout or b"", ex.stderr or b""
+            lines = stdout.decode("utf-8", "replace").split("\n")
+            if lines and lines[-1] == "":
+                lines.pop()
+            good = []
+            for l in lines[:len(pending)]:
+                try:
+                    good.append(json.loads(l))
+                except ValueError:
+                    break
+            out.extend(good)
+            if len(good) == len(pending):
+                break
+            # the request after the last complete answer killed (or hung) the process
+            out.append({"abort": rc, "stderr": stderr.decode("utf-8", "replace")[-300:]})
+            pending = pending[len(good) + 1:]
+        return out
+
+    def pbatch(self, requests, chunk=2000):
+        chunks = [requests[i:i + chunk] for i in range(0, len(requests), chunk)]
+        if len(chunks) <= 1:
+            return self.batch(requests) if requests else []
+        with cf.ThreadPoolExecutor(NCPU) as ex:
+            res = list(ex.map(self.batch, chunks))
+        return [x for c in res for x in c]
+
+
 BASE_ENV = {"PATH": "/usr/bin:/bin", "LANG": "C.UTF-8"}
 
 
